@@ -48,6 +48,7 @@ fn reps(class: &str) -> Vec<Vec<u8>> {
         "utf8_other" => vec![s("a\u{200b}b"), s("x\u{85}y")],
         "invalid_utf8" => vec![b"caf\xe9".to_vec(), b"\xff\xfe".to_vec()],
         "hash" => vec![s("# x"), s("#!shebang")],
+        "fence_indent" => vec![s("   ```bash"), s(" ```"), s("  ````")],
         other => tool_error(&format!("unknown line class {other}")),
     }
 }
